@@ -157,7 +157,7 @@ SPEC = {
     "lean_modules": ["RsslVerif.Thm.C01", "RsslVerif.Thm.C01Vec", "RsslVerif.Thm.C09"],
     "theorems": [T + n for n in [
         "op_table_is_identity", "op_table_injective", "intrinsic_table_is_identity", "exporter_shape_as_modelled",
-        "literal_value_preserved", "literal_total", "literal_int32_min",
+        "literal_value_preserved", "literal_total", "literal_never_panics", "literal_int32_min",
         "gen_sem_expr", "gen_sem_expr_plain", "gen_sem_stmt", "gen_sem_stmts", "scope_block_push_is_append",
         "gen_sem_func", "gen_sem_program",
         "cast_to_literal_dropped_changes_meaning",
@@ -165,7 +165,7 @@ SPEC = {
         "exporter_vec_shape_as_modelled", "swizzle_letters_are_identity", "vector_type_names_roundtrip",
         "vector_intrinsic_table_is_identity", "wide_constants_keep_kind_and_payload",
         "gen_sem_vec_expr", "gen_sem_vec_expr_plain", "gen_sem_vec_assign", "scalar_cast_then_widen_differs",
-        "dropping_inner_shape_cast_changes_meaning", "literal_vector_cast_panics"]] + [
+        "dropping_inner_shape_cast_changes_meaning", "vector_op_literal_in_concrete_type", "literal_vector_cast_panics"]] + [
         # the text leg (printing the exported tree and reading it back) is property C09's; its table obligations are
         # C01 obligations too: a change of the printer's precedence / associativity tables breaks them
         "RsslVerif.Thm.C09." + n for n in ["tables_agree", "assoc_agrees", "roundtrip_expr_partial", "paren_rule_matches_grammar"]],
@@ -216,7 +216,12 @@ SPEC = {
                   "increment of vectors, no matrices, structs, arrays, enums, methods, templates, default parameters, overloads, vector built-ins — "
                   "those are covered by the C01.vfn stream only (test, two independent evaluators, both flavours, bit-exact), as are "
                   "16/64-bit constants not at all; casts to a literal type are excluded (negation proved with a witness and replayed; "
-                  "casts to a *vector* of a literal type panic the exporter: proved as literal_vector_cast_panics, known finding); "
+                  "a vector operation or ?: with a literal operand (`boolvec + 1`, `intvec * 1.5`, `c ? intvec : 1.5`) is typed in the "
+                  "concrete vector type since fixes 40c6233 / c05bffa and proved exported with its meaning kept "
+                  "(vector_op_literal_in_concrete_type); a cast to a *vector* of a literal type, which the type checker no longer "
+                  "builds, would still panic the exporter (literal_vector_cast_panics, excluded by VIr.typeOf); generate_literal never "
+                  "panics on a modelled constant, an IntLiteral beyond +-u64::MAX is the export error IntLiteralOutOfRange since fix "
+                  "6017bad (literal_never_panics); "
                   "printing/parsing of the tree is C09's (cited obligations tables_agree, assoc_agrees, paren_rule_matches_grammar, "
                   "roundtrip_expr_partial; composed informally), name hygiene C15's.",
     "trusted_base": [
